@@ -50,6 +50,8 @@ def pipeline_scope(ctx):
             continue
         if b.span['exp']:
             continue
+        if b.path in getattr(ctx.facts, 'inlined_paths', ()):
+            continue        # a helper that was spliced into its callers: judged there, with the callers' guards
         out.append(b)
     return out
 
@@ -84,6 +86,10 @@ def r1(ctx):
         names = names[names.index('new'):]
         steps = [s for s in steps if s[0] != 'unwrap']
         steps = steps[[s[0] for s in steps].index('new'):]
+    if names[:3] == ['new', 'take', 'enumerate'] and names[3:] == want[3:]:
+        # take(limit) before or after enumerate(): the kept items and their indices are the same (take cuts a prefix); put it in the usual order
+        names = [names[0], names[2], names[1]] + names[3:]
+        steps = [steps[0], steps[2], steps[1]] + steps[3:]
     ctx.require(names == want, b, 'adaptor-order', 'adaptor order is ' + ' -> '.join(want[1:]),
                 'adaptor order is %s (expected %s): the item index / the shard assignment changes meaning' % (' -> '.join(names), ' -> '.join(want)),
                 bufs[0].span)
@@ -132,7 +138,10 @@ def r1(ctx):
         v_ = peel(mi[0][1])
         inner = core(v_[3][0]) if v_[0] == 'agg' and v_[2].endswith('Option::Some') and v_[3] else core(v_)
         LEN = Call('len', ANY)
-        okm = match(inner, Call('saturating_sub', Call('Ord::min', LEN, F('limit')), F('skip'))) or match(inner, Call('saturating_sub', Call('Ord::min', F('limit'), LEN), F('skip')))
+        MIN = Pred(lambda u: match(core(u), Call('Ord::min', LEN, F('limit'))) or match(core(u), Call('Ord::min', F('limit'), LEN)) or
+                   match(core(u), Call('cmp::min', F('limit'), LEN)) or match(core(u), Call('cmp::min', LEN, F('limit'))))
+        okm = match(inner, Call('saturating_sub', MIN, F('skip'))) or match(inner, Call('unwrap_or', Call('checked_sub', MIN, F('skip')), Const(0))) or \
+            match(inner, Call('unwrap_or_default', Call('checked_sub', MIN, F('skip'))))
         ctx.require(okm, b, 'min-items', 'min_items = min(len, limit).saturating_sub(skip): the window ends at position `limit`',
                     'min_items is %s' % show_in(b, inner)[:120], mi[0][0].span)
 
@@ -192,7 +201,10 @@ def r2(ctx):
                 'file_idx is %s' % show_in(c, fi_c))
     # the enumerate feeding this closure is applied directly to the generator (global index)
     en = [t for t in b.calls(r'Iterator::enumerate$')]
-    ok = len(en) == 1 and match(core(init_value(b, sym(b, en[0].args[0]))), Call('MultiTrainDataGenerator::new', ANY, ANY, ANY))
+    src_ = core(init_value(b, sym(b, en[0].args[0]))) if len(en) == 1 else ()
+    if src_ and match(src_, Call('Iterator::take', ANY, ANY)):
+        src_ = core(src_[2][0])      # a prefix cut in front of enumerate() does not shift the indices
+    ok = len(en) == 1 and match(src_, Call('MultiTrainDataGenerator::new', ANY, ANY, ANY))
     ctx.require(ok, b, 'global-index', 'enumerate() is applied directly to the generator: indices are global',
                 'enumerate() is applied to %s: the index (and with it every item seed) depends on rank / skip / fast_forward'
                 % (show_in(b, init_value(b, sym(b, en[0].args[0]))) if en else '?'), en[0].span if en else None)
